@@ -10,6 +10,7 @@ EXPLANATION = (
     "persisted allocator would hand out is not decided."
     " C32.2: the id map's high-water mark (dense internal ids) and every other engine state begin_write touches is read under the writer mutex."
     " C32.3: IdMap.e2i is only ever added to."
+    " C32.4: the per-statement counter mixed into a clock-derived external id advances between any two creations (through the creating function's `&mut` parameter on every success path, by the callers between consecutive calls when it is passed by value, or on every loop path for a local counter)."
 )
 
 CREATE = "nervusdb_query::executor::WriteableGraph::create_node"
@@ -38,6 +39,7 @@ def run(ctx):
                        "clock tick, a clock step backwards, or another process produce an identity that already exists and the CREATE fails "
                        "(or collides)" % [x.split("::")[-1] for x in clocks], c.loc(), sample={"fn": i, "site": c.loc(), "clock": clocks})
     ctx.floor("C32.1", "create_node call sites in the executor", n, 2)
+    salt_rule(ctx)
     # internal (dense) node ids are handed out from the id map's high-water mark: that read must happen under the writer mutex,
     # otherwise a writer queued behind another one allocates from a stale base and two nodes get the same identity
     from .c09 import writer_rmw_rule
@@ -82,3 +84,106 @@ def run(ctx):
                     ctx.instance("C32.3", "%s: assigns e2i as a whole" % i)
                     ctx.oblige(ok, "C32.3", "%s:e2i-replaced" % (b.root or i), "the external-id registry is replaced as a whole outside load", "%s:%d" % (b.file, st[3]))
     ctx.floor("C32.3", "mutating accesses to IdMap.e2i", n3, 1)
+
+
+def salt_rule(ctx, rid="C32.4"):
+    """the per-statement counter mixed into a generated external id advances between any two creations"""
+    from ..mirutil import value_root, peel_refs
+    from ..facts import op_const
+    F = ctx.facts
+    ctx.rule(rid, "wherever a generated external id mixes in a per-statement counter, the counter is incremented between any two creations "
+             "(inside the creating function through its `&mut` parameter, or by the caller between consecutive calls): two nodes created by one statement "
+             "within one clock tick must not receive the same identity")
+
+    def increments(b, target_is):
+        """blocks that store `x + 1` back to the counter; target_is(place) says whether a place is the counter"""
+        out = set()
+        for bi, blk in enumerate(b.blocks):
+            for st in blk["s"]:
+                if st[0] != "a" or not target_is(st[1]):
+                    continue
+                rv = st[2]
+                src = rv[1] if rv[0] == "use" and rv[1][0] in ("c", "m") else None
+                if src is not None and src[1][1]:
+                    sd = b.single_def(src[1][0])
+                    r2 = sd[3][2] if sd and sd[2] == "assign" else None
+                    if r2 and r2[0] == "bin" and r2[1] == "AddWithOverflow" and op_const(r2[3]) is not None and op_const(r2[3]).get("v", 0) >= 1:
+                        out.add(bi)
+                elif rv[0] == "bin" and rv[1] in ("Add", "AddWithOverflow"):
+                    out.add(bi)
+        return out
+
+    n = 0
+    for i, b in sorted(F.bodies.items()):
+        if not i.startswith("nervusdb_query::executor") or "::tests::" in i or b.kind == "closure":
+            continue
+        creates = [c for c in b.calls() if c.declared == CREATE]
+        for c in creates:
+            l = op_local(c.args[1]) if len(c.args) > 1 else None
+            calls = backward_calls(b, l) if l is not None else []
+            if not any(x.name in CLOCKS or x.name.endswith("::now") for x in calls):
+                continue
+            # the counter: a u32 / usize / u64 local or `*param` widened and added to the clock value
+            from .c26 import bslice
+            ls, _ = bslice(b, l, depth=14)
+            cands = []
+            for x in ls:
+                sd = b.single_def(x)
+                if sd and sd[2] == "assign" and sd[3][2][0] == "cast" and sd[3][2][1] == "IntToInt":
+                    src = sd[3][2][2]
+                    if src[0] in ("c", "m"):
+                        cands.append(src[1])
+            cands = [pl for pl in cands if "u32" in b.local_ty(pl[0]) or "usize" in b.local_ty(pl[0])]
+            if len(cands) != 1:
+                continue
+            n += 1
+            pl = cands[0]
+            # resolve the counter to: a place behind a `&mut` reference, a by-value parameter, or a local of this function
+            for _ in range(6):
+                if pl[1]:
+                    break
+                sd = b.single_def(pl[0])
+                if sd and sd[2] == "assign" and sd[3][2][0] == "use" and sd[3][2][1][0] in ("c", "m"):
+                    pl = sd[3][2][1][1]
+                    continue
+                break
+            base = pl[0]
+            short = (b.root or i).split("::")[-1]
+            if pl[1] == ["*"] and b.local_ty(base).startswith("&mut"):
+                # counter behind a &mut parameter: every success return after the creation passes an increment through it
+                root = value_root(b, base)
+                inc = increments(b, lambda p: p[1] == ["*"] and value_root(b, p[0]) == root)
+                from .. import paths
+                rets = [r for r in b.return_blocks() if r in b.reachable([c.bb], avoid=inc | paths.fail_blocks(b))]
+                ctx.instance(rid, "%s: counter behind `&mut` parameter, incremented at %s" % (short, sorted(inc)))
+                ctx.oblige(bool(inc) and not rets, rid, "%s:%s:callee-increment" % (rid, short),
+                           "%s creates a node with an id salted by a counter it does not advance on every success path" % short, c.loc())
+            elif not pl[1] and 1 <= base <= b.argc and not b.defs().get(base):
+                # by-value parameter: the callers must advance their counter between consecutive calls
+                pi = base
+                ctx.instance(rid, "%s: counter is a by-value parameter (#%d), callers checked" % (short, pi))
+                for ci, cb in sorted(F.bodies.items()):
+                    sites = [x for x in cb.calls() if x.name == i]
+                    if not sites:
+                        continue
+                    for s1 in sites:
+                        a = op_local(s1.args[pi - 1]) if len(s1.args) >= pi else None
+                        var = value_root(cb, a) if a is not None else None
+                        inc = increments(cb, lambda p: not p[1] and p[0] == var)
+                        for s2 in sites:
+                            if s2.bb in cb.reachable([s1.bb], avoid=inc):
+                                ctx.oblige(False, rid, "%s:%s:%s->%s:no-increment" % (rid, ci.split("::")[-1], "call#%d" % s1.ordinal, "call#%d" % s2.ordinal),
+                                           "%s can create two nodes (%s, then %s) without advancing the counter that salts their generated ids: within one clock "
+                                           "tick both receive the same external id" % (ci.split("::")[-1], s1.loc(), s2.loc()), s2.loc())
+            else:
+                # a local counter of this function: every path from the creation back to itself passes an increment
+                var = value_root(b, base)
+                inc = increments(b, lambda p: not p[1] and p[0] == var)
+                again = c.bb in b.reachable([c.bb], avoid=inc) and any(c.bb in b.reachable([s]) for s in b.succs(c.bb))
+                # is the creation inside a loop at all?
+                in_loop = c.bb in set().union(*[b.reachable([s]) for s in b.succs(c.bb)]) if b.succs(c.bb) else False
+                bad = in_loop and c.bb in b.reachable(list(b.succs(c.bb)), avoid=inc)
+                ctx.instance(rid, "%s: local counter _%d, incremented at %s" % (short, var, sorted(inc)))
+                ctx.oblige(not bad, rid, "%s:%s:loop-increment" % (rid, short),
+                           "%s can create a second node without advancing the counter that salts the generated id" % short, c.loc())
+    ctx.floor(rid, "clock-salted creation sites", n, 2)
